@@ -176,9 +176,6 @@ def load_findings():
         d = json.load(open(path))
     except FileNotFoundError:
         d = {'findings': []}
-    import glob
-    for f in sorted(glob.glob(os.path.join(VERIF, 'findings.d', '*.json'))):
-        d['findings'].append(json.load(open(f)))
     return d
 
 
